@@ -1,17 +1,11 @@
 import gfapy
+from ..edge.gfa2.validation import validate_interval
 
 class Validation:
 
   def _validate_record_type_specific_info(self):
     for pfx in ["s_", "f_"]:
-      begpos, endpos = self.get(pfx+"beg"), self.get(pfx+"end")
-      if isinstance(begpos, str) or isinstance(endpos, str):
-        continue # (not parsed: validation level 0)
-      if gfapy.posvalue(begpos) > gfapy.posvalue(endpos):
-        raise gfapy.ValueError(
-          "Line: {}\n".format(str(self))+
-          "begin > end: {} > {}".format(gfapy.posvalue(begpos),
-                                        gfapy.posvalue(endpos)))
+      validate_interval(self, self.get(pfx+"beg"), self.get(pfx+"end"))
 
   def validate_positions(self):
     "Checks that positions suffixed by $ are the last position of segments"
